@@ -16,29 +16,35 @@ NoVal == "NONE"
 \* db: function id -> value over the ids present.  A call c:
 \*   [op, id, v]  with op in create|update|delete|value|exists ; v is the argument ("" if none),
 \*   "WRONG" a value of the wrong type, "VETO" a value the BeforeChange hook refuses.
-\* genids: the store generates ids for Create on the empty id.
+\* genids: the store generates ids for Create on the empty id.  Reads, updates and deletes on the empty
+\* id fail (not-found, or another error where the backend rejects the empty key).
 Has(db, id) == id \in DOMAIN db
 Put(db, id, v) == [x \in DOMAIN db \cup {id} |-> IF x = id THEN v ELSE db[x]]
 Drop(db, id) == [x \in DOMAIN db \ {id} |-> db[x]]
 \* result: [res |-> "ok"|"duplicate"|"notfound"|"error", val |-> value read or NoVal, db |-> new map, cb |-> <<>> or <<id, before, after>>]
 SeqStep(db, c, genids) ==
-    LET same(r) == [res |-> r, val |-> NoVal, db |-> db, cb |-> <<>>] IN
+    LET same(r) == [res |-> r, alt |-> r, val |-> NoVal, db |-> db, cb |-> <<>>]
+        \* two reasons to fail at once: either error is acceptable
+        either(r1, r2) == [res |-> r1, alt |-> r2, val |-> NoVal, db |-> db, cb |-> <<>>] IN
     CASE c.op = "create" ->
             IF c.id = "" /\ ~genids THEN same("error")
-            ELSE IF Has(db, c.id) THEN same("duplicate")
+            ELSE IF Has(db, c.id) THEN (IF c.v \in {"WRONG", "VETO"} THEN either("duplicate", "error") ELSE same("duplicate"))
             ELSE IF c.v \in {"WRONG", "VETO"} THEN same("error")
-            ELSE [res |-> "ok", val |-> NoVal, db |-> Put(db, c.id, c.v), cb |-> <<c.id, NoVal, c.v>>]
+            ELSE [res |-> "ok", alt |-> "ok", val |-> NoVal, db |-> Put(db, c.id, c.v), cb |-> <<c.id, NoVal, c.v>>]
       [] c.op = "update" ->
-            IF ~Has(db, c.id) THEN same("notfound")
+            IF c.id = "" THEN either("notfound", "error")
+            ELSE IF ~Has(db, c.id) THEN (IF c.v \in {"WRONG", "VETO"} THEN either("notfound", "error") ELSE same("notfound"))
             ELSE IF c.v \in {"WRONG", "VETO"} THEN same("error")
-            ELSE [res |-> "ok", val |-> NoVal, db |-> Put(db, c.id, c.v), cb |-> <<c.id, db[c.id], c.v>>]
+            ELSE [res |-> "ok", alt |-> "ok", val |-> NoVal, db |-> Put(db, c.id, c.v), cb |-> <<c.id, db[c.id], c.v>>]
       [] c.op = "delete" ->
-            IF ~Has(db, c.id) THEN same("notfound")
+            IF c.id = "" THEN either("notfound", "error")
+            ELSE IF ~Has(db, c.id) THEN same("notfound")
             ELSE IF c.v = "VETO" THEN same("error")
-            ELSE [res |-> "ok", val |-> NoVal, db |-> Drop(db, c.id), cb |-> <<c.id, db[c.id], NoVal>>]
+            ELSE [res |-> "ok", alt |-> "ok", val |-> NoVal, db |-> Drop(db, c.id), cb |-> <<c.id, db[c.id], NoVal>>]
       [] c.op = "value" ->
-            IF ~Has(db, c.id) THEN same("notfound") ELSE [res |-> "ok", val |-> db[c.id], db |-> db, cb |-> <<>>]
-      [] c.op = "exists" -> [res |-> (IF Has(db, c.id) THEN "ok" ELSE "notfound"), val |-> NoVal, db |-> db, cb |-> <<>>]
+            IF c.id = "" THEN either("notfound", "error")
+            ELSE IF ~Has(db, c.id) THEN same("notfound") ELSE [res |-> "ok", alt |-> "ok", val |-> db[c.id], db |-> db, cb |-> <<>>]
+      [] c.op = "exists" -> same(IF Has(db, c.id) THEN "ok" ELSE "notfound")
       [] OTHER -> same("error")
 
 \* first index (1-based) at which the observed history deviates from the reference, 0 if none.
@@ -49,44 +55,7 @@ FirstBad(db, calls, i, genids, ncb) ==
     ELSE LET c == calls[i]
              r == SeqStep(db, c, genids)
              expCbs == IF r.cb = <<>> THEN <<>> ELSE [k \in 1..ncb |-> r.cb]
-         IN IF c.res # r.res \/ c.val # r.val \/ c.cbs # expCbs THEN i
+         IN IF (c.res # r.res /\ c.res # r.alt) \/ c.val # r.val \/ c.cbs # expCbs THEN i
             ELSE FirstBad(r.db, calls, i + 1, genids, ncb)
 
-\* ---- concurrent model ------------------------------------------------------------
-CONSTANTS Procs, Ids, Vals, MaxOps
-VARIABLES db, readers, writer, txn, nops, cblog
-vars == <<db, readers, writer, txn, nops, cblog>>
-\* txn[p]: [mode |-> "none"|"r"|"w", id]
-CInit == /\ db = <<>> /\ readers = [i \in Ids |-> {}] /\ writer = [i \in Ids |-> "none"]
-         /\ txn = [p \in Procs |-> [mode |-> "none", id |-> ""]] /\ nops = [p \in Procs |-> 0] /\ cblog = <<>>
-OpenRead(p, i) == /\ txn[p].mode = "none" /\ writer[i] = "none" /\ nops[p] < MaxOps
-                  /\ readers' = [readers EXCEPT ![i] = @ \cup {p}] /\ txn' = [txn EXCEPT ![p] = [mode |-> "r", id |-> i]]
-                  /\ UNCHANGED <<db, writer, nops, cblog>>
-OpenWrite(p, i) == /\ txn[p].mode = "none" /\ writer[i] = "none" /\ readers[i] = {} /\ nops[p] < MaxOps
-                   /\ writer' = [writer EXCEPT ![i] = p] /\ txn' = [txn EXCEPT ![p] = [mode |-> "w", id |-> i]]
-                   /\ UNCHANGED <<db, readers, nops, cblog>>
-Call(p, op, v) ==
-    /\ txn[p].mode # "none" /\ nops[p] < MaxOps
-    /\ (txn[p].mode = "r" => op \in {"value", "exists"})
-    /\ LET r == SeqStep(db, [op |-> op, id |-> txn[p].id, v |-> v], FALSE) IN
-       /\ db' = r.db
-       /\ cblog' = IF r.cb = <<>> THEN cblog ELSE Append(cblog, r.cb)
-    /\ nops' = [nops EXCEPT ![p] = @ + 1]
-    /\ UNCHANGED <<readers, writer, txn>>
-Close(p) == /\ txn[p].mode # "none"
-            /\ readers' = [readers EXCEPT ![txn[p].id] = @ \ {p}]
-            /\ writer' = [writer EXCEPT ![txn[p].id] = IF @ = p THEN "none" ELSE @]
-            /\ txn' = [txn EXCEPT ![p] = [mode |-> "none", id |-> ""]]
-            /\ UNCHANGED <<db, nops, cblog>>
-CNext == \E p \in Procs : \/ \E i \in Ids : OpenRead(p, i) \/ OpenWrite(p, i)
-                          \/ \E op \in {"create", "update", "delete", "value", "exists"}, v \in Vals \cup {"WRONG"} : Call(p, op, v)
-                          \/ Close(p)
-CSpec == CInit /\ [][CNext]_vars
-ExclusiveWrite == \A i \in Ids : writer[i] # "none" => (readers[i] = {} /\ Cardinality({p \in Procs : txn[p].mode = "w" /\ txn[p].id = i}) = 1)
-\* per id, the callbacks chain: each before-value is the previous after-value, the first is "none"
-Chain == \A i \in Ids :
-            LET s == SelectSeq(cblog, LAMBDA e : e[1] = i) IN
-            /\ (s # <<>> => s[1][2] = NoVal)
-            /\ \A k \in 1..(Len(s) - 1) : s[k + 1][2] = s[k][3]
-            /\ (s # <<>> => (IF Has(db, i) THEN s[Len(s)][3] = db[i] ELSE s[Len(s)][3] = NoVal))
 =============================================================================
